@@ -1,5 +1,8 @@
+pub mod alloc;
 pub mod engines;
+pub mod gen;
 pub mod models;
+pub mod pool;
 pub mod rng;
 pub mod stream;
 pub mod sup;
